@@ -377,7 +377,7 @@ def _stub_h():
         k("h_stub::" + name, ["C07", "C08", "C01", "C13"], ["bump_vec::BumpVec::{new_in,try_push,%s,generic_grow_amortized,generic_grow_to,generic_reserve,drop}" % meth, "fixed_bump_vec::raw::RawFixedBumpVec::allocate"], "B",
           "BumpVec<u16>: %s; a refused request leaves length, capacity, buffer address and contents unchanged (C07); otherwise same contents as the model (C08); the buffer is a live aligned block and every grow/deallocate call gets a live block with a consistent layout (C01, checked inside the stub); drop reclaims at most the vector's own buffer (C13)%s" % (what, "; another block is handed out after the buffer, so growth moves it and nothing is reclaimed" if foreign == "true" else ""),
           bound=_STB, timeout=900, inst="UP=%s used=%s n=%s foreign=%s" % (up, used, n, foreign))
-    _conv = {"0": ("shrink_to_fit", ["C08", "C13", "C02", "C01"]), "1": ("shrink_to", ["C08", "C02", "C01"]), "2": ("into_boxed_slice", ["C08", "C01", "C13"]), "3": ("into_fixed_vec", ["C08", "C01"]),
+    _conv = {"0": ("shrink_to_fit", ["C08", "C13", "C02", "C01", "C16"]), "1": ("shrink_to", ["C08", "C02", "C01", "C16", "C13"]), "2": ("into_boxed_slice", ["C08", "C01", "C13"]), "3": ("into_fixed_vec", ["C08", "C01"]),
              "4": ("split_off", ["C16", "C01", "C08", "C06"]), "5": ("into_iter", ["C08", "C01"])}
     for m in _re.finditer(r"^    (stub_conv_\w+): (true|false), (\d+), (\d+), (\d+), (true|false), (\d);", txt, _re.M):
         name, up, used, n, spare, foreign, op = m.groups()
